@@ -33,13 +33,17 @@
 namespace cppcms {
 namespace sessions {
 
-struct session_file_storage::_data {};
+struct session_file_storage::_data {
+	pid_t creator; // the process that created the mutexes
+};
 
 using namespace cppcms::impl;
 
 session_file_storage::session_file_storage(std::string path,int concurrency_hint,int procs_no,bool force_flock) :
+	d(new _data()),
 	memory_(MAP_FAILED)
 {
+	d->creator = getpid();
 	if(path.empty()){
 		if(::getenv("TEMP"))
 			path_=std::string(::getenv("TEMP")) + "/cppcms_sessions";
@@ -87,8 +91,12 @@ session_file_storage::session_file_storage(std::string path,int concurrency_hint
 session_file_storage::~session_file_storage()
 {
 	if(memory_ !=MAP_FAILED) {
-		for(unsigned i=0;i<lock_size_;i++)
-			destroy_mutex(reinterpret_cast<pthread_mutex_t *>(memory_) + i);
+		// the mutexes are shared with the processes forked after they were created:
+		// a worker that leaves must not destroy them for the others
+		if(d->creator == getpid()) {
+			for(unsigned i=0;i<lock_size_;i++)
+				destroy_mutex(reinterpret_cast<pthread_mutex_t *>(memory_) + i);
+		}
 		munmap((char*)memory_,sizeof(pthread_mutex_t) * lock_size_);
 	}
 	else {
